@@ -156,6 +156,10 @@ func (st *Storage) Put(k, b []byte, opt *leveldbOpt.WriteOptions) error {
 		return err
 	}
 
+	if err := verifWrite(st, "put", k, nil); err != nil {
+		return err
+	}
+
 	if err := db.Put(k, b, opt); err != nil {
 		return storage.ErrExec.WithMessage(err, "put")
 	}
@@ -169,6 +173,10 @@ func (st *Storage) Delete(k []byte, opt *leveldbOpt.WriteOptions) error {
 		return err
 	}
 
+	if err := verifWrite(st, "delete", k, nil); err != nil {
+		return err
+	}
+
 	if err := db.Delete(k, opt); err != nil {
 		return storage.ErrExec.WithMessage(err, "delete")
 	}
@@ -179,6 +187,10 @@ func (st *Storage) Delete(k []byte, opt *leveldbOpt.WriteOptions) error {
 func (st *Storage) Batch(batch *leveldb.Batch, wo *leveldbOpt.WriteOptions) error {
 	db, err := st.db()
 	if err != nil {
+		return err
+	}
+
+	if err := verifWrite(st, "batch", nil, batch); err != nil {
 		return err
 	}
 
